@@ -183,6 +183,20 @@ def reach(st, name, props=None, witness=None, replay=None):
     oblige(st, name, BoolVal(False), props=props or list(DEFAULT_PROPS), kind='mustfail', witness=witness, replay=replay)
 
 
+_LOCAL_CONTAINER_METHODS = ('add', 'discard', 'remove', 'clear', 'update', 'append', 'extend', 'get', 'pop', 'setdefault', 'popitem', 'copy', 'keys', 'values', 'items')
+def bind_prelude_locals(env, stmts):
+    """locals a function binds BEFORE its main loop and that the contract does not name: at the head of an arbitrary iteration their value is arbitrary.
+    int literal -> unconstrained integer; fresh container ({} [] set() dict() list() deque() ...) -> opaque 'localcontainer_<name>' (its methods are
+    tainted no-ops / unconstrained reads, see find_handler); any other initialiser may alias modelled state and is left unbound (Unsupported on use)"""
+    import ast as _ast
+    for s_ in stmts:
+        tg = s_.targets[0] if isinstance(s_, _ast.Assign) and len(s_.targets) == 1 else (s_.target if isinstance(s_, _ast.AnnAssign) else None)
+        v_ = getattr(s_, 'value', None)
+        if not isinstance(tg, _ast.Name) or tg.id in env or v_ is None: continue
+        if isinstance(v_, _ast.Constant) and isinstance(v_.value, int) and not isinstance(v_.value, bool): env[tg.id] = PyInt(fresh(tg.id, IntSort()))
+        elif (isinstance(v_, (_ast.Dict, _ast.List, _ast.Set)) and not (getattr(v_, 'keys', None) or getattr(v_, 'elts', None))) or \
+             (isinstance(v_, _ast.Call) and not v_.args and not v_.keywords and _ast.unparse(v_.func) in ('set', 'dict', 'list', 'deque', 'collections.deque', 'Counter', 'collections.Counter', 'WeakSet', 'weakref.WeakSet')):
+            env[tg.id] = fresh('localcontainer_' + tg.id)
 def to_val(v):
     """coerce python-side wrapper to a z3 Val"""
     if isinstance(v, PyBool): return Val.boolv(v.e)
@@ -493,6 +507,14 @@ class Exec:
             if pat.endswith('.*') and name.startswith(pat[:-1]): return h
         if isinstance(recv, PyList) and meth == 'append': return _h_list_append
         if isinstance(recv, PyDict) and meth in _DICT_METHODS: return _DICT_METHODS[meth]
+        if is_expr(recv) and recv.sort() == Val and is_const(recv) and recv.decl().name().startswith('localcontainer_') and meth in _LOCAL_CONTAINER_METHODS and name.count('.') == 1:
+            # a bookkeeping container the function created itself before its loop (bind_prelude_locals): it cannot alias anything the contracts talk
+            # about, so a mutation has no effect on the modelled state and a read yields an unconstrained value; the path is marked as approximation
+            def h_local(ex, st, e, r, a, kw, k, K):
+                approx(st, f"{name}(): bookkeeping container local to the function, contents not modelled")
+                if meth in ('get', 'pop', 'setdefault', 'popitem', 'copy', 'keys', 'values', 'items'): return k(st, fresh(meth + '_of_local_container'))
+                return k(st, None)
+            return h_local
         h = self.inline_handler(name) or self.pure_fallback(name)
         if h is None and meth in CLS.ids and CLS.is_sub(meth, 'BaseException') and recv is None:          # ValueError("...") / exceptions.SendTaskError(...): a new exception object of that class
             return lambda ex, st, e, r, a, kw, k, K: k(st, new_exc(st, meth))
@@ -615,6 +637,22 @@ class Exec:
         if isinstance(s.value, ast.Constant): return k(st)
         return self.ev(s.value, st, lambda st2, v: k(st2), K)
     def st_Pass(self, s, st, k, K): return k(st)
+    def st_Delete(self, s, st, k, K):
+        # `del d[key]`: on a modelled dict the key is removed (KeyError edge when absent); on a bookkeeping container local to the function: tainted no-op
+        if len(s.targets) != 1 or not isinstance(s.targets[0], ast.Subscript): raise Unsupported("statement Delete: " + ast.unparse(s)[:80])
+        tgt = s.targets[0]
+        def got(st2, vs):
+            base, idx = vs
+            if isinstance(base, PyDict):
+                kx = to_val(idx)
+                def present(s3):
+                    s3.heap = s3.heap.copy(); s3.heap.dhas = Store(s3.heap.dhas, base.addr, Store(s3.heap.dhas[base.addr], kx, False)); return k(s3)
+                def absent(s3): return K['exc'](s3, new_exc(s3, 'KeyError'))
+                return self.branch(st2, st2.heap.dhas[base.addr][kx], present, absent)
+            if is_expr(base) and base.sort() == Val and is_const(base) and base.decl().name().startswith('localcontainer_'):
+                approx(st2, "del " + ast.unparse(tgt) + ": bookkeeping container local to the function, contents not modelled"); return k(st2)
+            raise Unsupported("statement Delete: " + ast.unparse(s)[:80])
+        return self.ev_list([tgt.value, tgt.slice], st, got, K)
     def assign(self, tgt, v, st, k, K):
         if isinstance(tgt, ast.Name):
             st.env = dict(st.env); st.env[tgt.id] = v; return k(st)
